@@ -26,6 +26,7 @@ static const char *cfg_name(int c) { return c == 0 ? "reset communication" : c =
 static int PARA;
 static int RESET_CS;
 
+static int SRV1;      /* --opt srv=1 (build with CO_SSDO_N=2): all SDO traffic of the histories and of the probes runs over the second server (640h/5C0h + node id) */
 static int build(int cfg)
 {
     nc_defaults();
@@ -39,6 +40,7 @@ static int build(int cfg)
     /* transmission type 0: the value the freshly cleared SYNC tables hold as well */
     NC.n_tpdo = 3; NC.tpdo[2].present = 1; NC.tpdo[2].cobid = 0x40000381u; NC.tpdo[2].type = 0; NC.tpdo[2].nmap = 1; NC.tpdo[2].map[0] = NC_MAP(0x2110, 0, 8);
     NC.csdo = 1;
+    SRV1 = mc_opt("srv", 0); if (SRV1) NC.sdo_srv = 2;
     NC.operational = (cfg == 2);
     RESET_CS = (cfg == 1 || cfg == 3 || cfg == 4) ? 129 : 130;
     /* cfg 4, 5: the heartbeat time lives in a parameter group that "save" writes to NVM: RAM and NVM can differ at the reset, and a
@@ -56,7 +58,8 @@ static int build(int cfg)
 }
 static const char *ev_name(int e) { return HN[e]; }
 
-static void sdo8(uint8_t c, uint16_t idx, uint8_t sub, uint32_t v) { w_rx8(&Node, 0x600u + Node.NodeId, c, (uint8_t)idx, (uint8_t)(idx >> 8), sub, (uint8_t)v, (uint8_t)(v >> 8), (uint8_t)(v >> 16), (uint8_t)(v >> 24)); }
+#define SDO_RXID ((SRV1 ? 0x640u : 0x600u) + Node.NodeId)
+static void sdo8(uint8_t c, uint16_t idx, uint8_t sub, uint32_t v) { w_rx8(&Node, SDO_RXID, c, (uint8_t)idx, (uint8_t)(idx >> 8), sub, (uint8_t)v, (uint8_t)(v >> 8), (uint8_t)(v >> 16), (uint8_t)(v >> 24)); }
 
 static int step(int e)
 {
@@ -86,7 +89,7 @@ static int step(int e)
     case H_BLKDL: sdo8(0xC2, 0x2130, 0, 20); break;
     case H_BLKUL: sdo8(0xA0, 0x2130, 0, 2); break;
     case H_A3: sdo8(0xA3, 0, 0, 0); break;
-    case H_SEG: w_rx8(&Node, 0x600u + Node.NodeId, 0x00, 1, 2, 3, 4, 5, 6, 7); break;
+    case H_SEG: w_rx8(&Node, SDO_RXID, 0x00, 1, 2, 3, 4, 5, 6, 7); break;
     case H_CSDO_REQ: { CO_CSDO *c = COCSdoFind(&Node, 0); if (!c) return MC_SKIP; (void)COCSdoRequestUpload(c, CO_DEV(0x2000, 0), M.csdo_buf, 4, csdo_cb, 5); break; }
     case H_CSDO_RESP: w_rx8(&Node, 0x585, 0x43, 0x00, 0x20, 0x00, 1, 2, 3, 4); break;
     /* two emergencies in different status bytes (errors 2 and 9): "emergencies cleared" must hold for every set of pending errors */
